@@ -426,3 +426,44 @@ def _cps_program(shape):
 
 for _s in ("r", "prp", "rr", "rp"):
     _cps_program(_s)
+
+
+@task("time_travel.entry", props=["C31"], functions=[TT + ":TimeTravelCPSInterpreter.time_travel", TT + ":time_travel"])
+def t_entry(E):
+    """time_travel(f)(*args): the function is staged on the arguments and the CPS interpreter is run on EXACTLY the staged
+    program - its jaxpr (every equation of it: a record point whose value is never used is still a recorded call), its
+    literals, the flat arguments and the output tree.  Staging is external (A11)."""
+    I = E.I
+    lits_m, flat_m, tree_m = E.opaque("staged_literals"), E.opaque("flat_args"), E.opaque("out_tree")
+    # the staged jaxpr: a record with the usual attributes (code that inspects or rewrites it can run), compared by identity
+    jaxpr_m = Rec(constvars=[], invars=[E.opaque("v_in", "var")], eqns=[E.opaque("eqn0"), E.opaque("eqn1")],
+                  outvars=[E.opaque("v_out", "var")], effects=E.opaque("effects"), debug_info=None)
+    staged_on, runs = [], []
+
+    def stage(I_, f):
+        def staged(I2, *args):
+            staged_on.append((f, list(args)))
+            return (Rec(jaxpr=jaxpr_m, literals=lits_m), (flat_m, None, tree_m))
+        return NativeFn("staged", staged)
+    I.module_cache[(TT, "stage")] = NativeFn("stage", stage)
+    res = E.ctx.fn("cps_interpreter_result", U, U, U, U, U)
+
+    jx = E.opaque("the_staged_jaxpr_as_a_value")
+
+    def eval_tt(I_, jaxpr, consts, flat_args, out_tree):
+        runs.append((jaxpr, consts, flat_args, out_tree))
+        ju = jx.t if jaxpr is jaxpr_m else I_.ctx.const("another_jaxpr", U)
+        return UVal(res(ju, I_.to_u(consts), I_.to_u(flat_args), I_.to_u(out_tree)))
+    I.overrides[TT + ":TimeTravelCPSInterpreter.eval_jaxpr_time_travel"] = eval_tt
+    f = E.opaque("f", "Callable")
+    x, y = E.opaque("x"), E.opaque("y")
+    st, got = E.attempt(lambda: I.call(E.call(TT + ":time_travel", f), [x, y], {}))
+    E.require("C31.time_travel.entry.does_not_raise", st == "ok", raised=str(got))
+    E.require("C31.time_travel.entry.stages_once_and_interprets_once", len(staged_on) == 1 and len(runs) == 1)
+    E.prove("C31.time_travel.entry.stages_the_function_on_the_arguments",
+            z3.And(I.to_u(staged_on[0][0]) == f.t, I.to_u(staged_on[0][1]) == I.to_u([x, y])))
+    E.require("C31.time_travel.entry.interprets_the_staged_jaxpr_itself_every_equation_of_it", runs[0][0] is jaxpr_m)
+    E.prove("C31.time_travel.entry.interprets_exactly_the_staged_program", z3.And(
+        I.to_u(runs[0][1]) == lits_m.t, I.to_u(runs[0][2]) == flat_m.t, I.to_u(runs[0][3]) == tree_m.t,
+        I.to_u(got) == res(jx.t, lits_m.t, flat_m.t, tree_m.t)))
+    E.refutable("time_travel.entry", x.t == y.t)
